@@ -25,7 +25,7 @@ TESTS = {
  "C20": "test/test_settings.py test/examples/test_simple_gp_regression.py test/likelihoods test/variational/test_variational_strategy.py",
 }
 pid = sys.argv[1]; rnd = sys.argv[2] if len(sys.argv) > 2 else "3"
-base = subprocess.check_output(['python3', '/verif/harness/mk_mut_prompt.py', pid, TESTS[pid], '3'], text=True)
+base = subprocess.check_output(['python3', '/verif/harness/mk_mut_prompt.py', pid, TESTS[pid], __import__('os').environ.get('MUT_K', '3')], text=True)
 base = base.replace(f"/tmp/mut-{pid.lower()}", f"/tmp/mut{rnd}-{pid.lower()}")
 used = []
 for d in sorted(glob.glob(f'/verif/seeded/{pid}-*')):
